@@ -668,7 +668,7 @@ class Node(object):
         dist = self.simulation.reneging_times[self.id_number][ind.customer_class]
         if dist is None:
             return float("inf")
-        return self.now + dist.sample(t=self.now, ind=ind)
+        return self.increment_time(self.now, dist.sample(t=self.now, ind=ind))
 
     def get_service_time(self, ind):
         """
